@@ -116,6 +116,8 @@ QJsonObject to_json(const Plan &p)
     s["spurious_pm"] = p.spurious_pm;
     s["time_adv_pct"] = p.time_adv_pct;
     s["clock_yield_pct"] = p.clock_yield_pct;
+    if (p.max_decisions != 20000)
+        s["max_decisions"] = p.max_decisions;
     s["stall_tid"] = p.stall_tid;
     s["stall_from"] = p.stall_from;
     s["stall_len"] = p.stall_len;
@@ -162,6 +164,7 @@ bool from_json(const QJsonObject &o, Plan &p, std::string *err)
     p.spurious_pm = s["spurious_pm"].toInt();
     p.time_adv_pct = s["time_adv_pct"].toInt(20);
     p.clock_yield_pct = s["clock_yield_pct"].toInt(0);
+    p.max_decisions = s["max_decisions"].toInt(20000);
     p.stall_tid = s["stall_tid"].toInt(-1);
     p.stall_from = s["stall_from"].toInt();
     p.stall_len = s["stall_len"].toInt();
@@ -389,8 +392,18 @@ Plan gen_C02(Gen &g, Plan p)
     p.root = gen_tree(g, false);
     int maxp = g.thorough ? (g.r.chance(1, 8) ? 24 : 10) : 8;
     int np = (int)g.r.range(2, g.r.chance(1, 4) ? maxp : 4);
+    bool crowd = g.r.chance(1, g.thorough ? 20 : 60);
+    if (crowd) {
+        // far more threads than cores, one or two messages each, through a thread-tagging formatter:
+        // per-thread tables of the stateful handlers see more than 32 distinct threads
+        np = (int)g.r.range(33, 44);
+        Node pf = mk(g, "pretty", 15);
+        Node rs = mk(g, "rec", g.next_sink++);
+        p.root.kids.insert(p.root.kids.begin(), rs);
+        p.root.kids.insert(p.root.kids.begin(), pf);
+    }
     for (int i = 0; i < np; i++)
-        p.producers.push_back(gen_producer(g, msgs_per_producer(g), false, 30));
+        p.producers.push_back(gen_producer(g, crowd ? (int)g.r.range(1, 2) : msgs_per_producer(g), false, 30));
     // main: optionally logs itself, spawns, joins
     if (g.r.chance(1, 3))
         p.main_ops.push_back(gen_log(g, false));
@@ -417,6 +430,10 @@ Plan gen_C03(Gen &g, Plan p)
         // a handler that logs from the logger thread itself
         Node rl = mk(g, "relog", (int)g.r.range(2, 4));
         p.root.kids.insert(p.root.kids.begin() + g.r.below(p.root.kids.size() + 1), rl);
+    }
+    if (g.r.chance(1, 3)) {
+        Node pr = mk(g, "probe");
+        p.root.kids.insert(p.root.kids.begin() + g.r.below(p.root.kids.size() + 1), pr);
     }
     int np = (int)g.r.range(1, g.r.chance(1, 4) ? 6 : 3);
     for (int i = 0; i < np; i++) {
@@ -446,16 +463,48 @@ Plan gen_C03(Gen &g, Plan p)
     p.main_ops.push_back(mkop("join", -1)); // all log calls must return while the gate is still closed
     if (gate)
         p.main_ops.push_back(mkop("open_gate", 0));
+    if (p.target == "logger" && g.r.chance(1, 6)) {
+        // the run ends in a fatal message logged while the logger still runs in its own thread:
+        // Qt aborts the process when the handler returns
+        Op f = gen_log(g, false);
+        f.kind = "fatal";
+        f.a = 3;
+        if (g.r.chance(1, 2) && !p.producers.empty() && !gate) {
+            p.producers[g.r.below(p.producers.size())].push_back(f);
+        } else {
+            p.main_ops.push_back(f);
+        }
+    }
     p.main_ops.push_back(mkop("reset"));
     gen_sched(g, p, np + 1);
+    if (gate && g.r.chance(1, g.thorough ? 8 : 25)) {
+        // a burst far beyond any plausible queue bound against a stuck sink: the calls must all return.
+        // No yield points besides the blocking calls, so that the run stays within the decision cap.
+        int n = g.thorough ? (int)g.r.range(3000, 9000) : 4400;
+        std::vector<Op> ops;
+        Op b = gen_log(g, false);
+        for (int i = 0; i < n; i++)
+            ops.push_back(b);
+        p.producers[0] = ops;
+        // a lean pipeline: the stuck sink and a recorder
+        Node root = mk(g, "pipe", 0);
+        root.kids.push_back(mk(g, "gate", 0));
+        root.kids.push_back(mk(g, "rec", 0));
+        p.root = root;
+        p.max_decisions = 400000;
+        p.yield_pct = 0;
+        p.clock_yield_pct = 0;
+        p.time_adv_pct = 0;
+        p.cfg["burst"] = n;
+    }
     return p;
 }
 
 // C04 ------------------------------------------------------------------------
 Plan gen_C04(Gen &g, Plan p)
 {
-    static const char *fams[] = { "H1", "H1", "H2", "H3", "H4a", "H4b", "H4c", "H5", "H5", "H6", "H6" };
-    std::string fam = fams[g.r.below(11)];
+    static const char *fams[] = { "H1", "H1", "H2", "H3", "H4a", "H4b", "H4c", "H5", "H5", "H6", "H6", "H7" };
+    std::string fam = fams[g.r.below(12)];
     p.cfg["family"] = QString::fromStdString(fam);
     p.target = fam == "H4c" ? "singleton" : (g.r.chance(1, 2) ? "logger" : "bare");
     p.app = fam != "H4b";
@@ -549,6 +598,24 @@ Plan gen_C04(Gen &g, Plan p)
         if (g.r.chance(1, 2))
             p.main_ops.push_back(mkop("destroy_app"));
         p.main_ops.push_back(mkop("exit"));
+    } else if (fam == "H7") {
+        // the application object is destroyed by the main thread while another thread is in the middle
+        // of a stop (waiting for a backlog): the stop must notice and finish the backlog itself
+        std::vector<Op> st;
+        if (g.r.chance(1, 2))
+            st.push_back(g.r.chance(1, 2) ? mkop("yield") : mkop("sleep", (int)g.r.range(1, 20000)));
+        st.push_back(mkop("reset"));
+        p.producers.push_back(st);
+        p.main_ops.push_back(mkop("move"));
+        main_logs(2, 14);
+        spawn_all();
+        p.main_ops.push_back(mkop("spawn", np + 1));
+        maybe_sleep();
+        p.main_ops.push_back(mkop("destroy_app"));
+        maybe_gate();
+        p.main_ops.push_back(mkop("join", -1));
+        main_logs(0, 2);
+        p.main_ops.push_back(mkop("destroy"));
     } else if (fam == "H6") {
         // stops (and restarts) issued by another thread while the main thread runs its event loop
         std::vector<Op> st;
